@@ -41,9 +41,11 @@ func (s *MapNamespace) GetValue(key string) any {
 // update the value associated with a key and trigger the change notification
 // to the OPC server
 func (s *MapNamespace) SetValue(key string, value any) {
+	// the notification reads the value through Attribute,
+	// which takes the lock itself.
 	s.Mu.Lock()
-	defer s.Mu.Unlock()
 	s.Data[key] = value
+	s.Mu.Unlock()
 	s.ChangeNotification(key)
 }
 
@@ -175,11 +177,15 @@ func (ns *MapNamespace) Attribute(n *ua.NodeID, a ua.AttributeID) *ua.DataValue 
 
 	key := n.StringID()
 
+	// the application changes the data while the server reads it.
+	ns.Mu.RLock()
+	value, found := ns.Data[key]
 	var err error
 	if ns.srv.cfg.logger != nil {
 		ns.srv.cfg.logger.Debug("Read req for %s", key)
 		ns.srv.cfg.logger.Debug("'%s' Data at read: %v", ns.name, ns.Data)
 	}
+	ns.Mu.RUnlock()
 
 	// because our data is native go types we don't have any of the ua "attributes" attached to it.
 	// so depending on what attribute the client wants, we'll inspect the data and return the appropriate
@@ -195,7 +201,7 @@ func (ns *MapNamespace) Attribute(n *ua.NodeID, a ua.AttributeID) *ua.DataValue 
 	case ua.AttributeIDValue:
 		dv.Status = ua.StatusOK
 		dv.EncodingMask |= ua.DataValueValue
-		v, ok := ns.Data[key]
+		v, ok := value, found
 		if !ok {
 			return &ua.DataValue{
 				EncodingMask:    ua.DataValueServerTimestamp | ua.DataValueStatusCode,
@@ -256,7 +262,7 @@ func (ns *MapNamespace) Attribute(n *ua.NodeID, a ua.AttributeID) *ua.DataValue 
 	case ua.AttributeIDDataType:
 		dv.Status = ua.StatusOK
 		dv.EncodingMask |= ua.DataValueValue
-		v := ns.Data[key]
+		v := value
 		switch v.(type) {
 		case string:
 			dv.Value, err = ua.NewVariant(ua.NewNumericNodeID(0, 12))
@@ -342,7 +348,6 @@ func (ns *MapNamespace) Attribute(n *ua.NodeID, a ua.AttributeID) *ua.DataValue 
 func (s *MapNamespace) SetAttribute(node *ua.NodeID, attr ua.AttributeID, val *ua.DataValue) ua.StatusCode {
 
 	s.Mu.Lock()
-	defer s.Mu.Unlock()
 	if s.srv.cfg.logger != nil {
 		s.srv.cfg.logger.Debug("'%s' Data pre-write: %v", s.name, s.Data)
 	}
@@ -353,11 +358,15 @@ func (s *MapNamespace) SetAttribute(node *ua.NodeID, attr ua.AttributeID, val *u
 	// going to use the node id directly to look it up from our data map.
 	if attr == ua.AttributeIDValue {
 		if val == nil || val.Value == nil {
+			s.Mu.Unlock()
 			return ua.StatusBadTypeMismatch
 		}
 		v := val.Value.Value()
 		s.Data[key] = v
 	}
+	// the notification reads the value through Attribute,
+	// which takes the lock itself.
+	s.Mu.Unlock()
 
 	// notify the opc ua server the value has changed.
 	s.srv.ChangeNotification(node)
